@@ -598,7 +598,7 @@ def check(prop, tier):
                        'syscalls+answers); non-trivial = the engine-specific rule in DESIGN.md section 3.7 (enough callbacks/'
                        'operations and at least one fault fired or action taken inside a callback) evaluated per run',
         'fault_enumeration': 'for each generated base plan every library-context allocation of every step is failed once singly and once '
-                             'persistently (steps with more than 24 allocations: first 8, a stride of 16 and the last); '
+                             'persistently (steps with more than 64 allocations: first 48, a stride of 16 and the last); '
                              'evaluations counts all runs including base runs; distinct as for exploration',
     }
     ev = {
